@@ -11,6 +11,7 @@ from linear_operator.operators.batch_repeat_linear_operator import BatchRepeatLi
 from linear_operator.operators.dense_linear_operator import DenseLinearOperator
 
 from linear_operator.utils.errors import NotPSDError
+from linear_operator.utils.broadcasting import _matmul_broadcast_shape
 from linear_operator.utils.memoize import cached
 
 Allsor = Union[Tensor, LinearOperator]
@@ -210,6 +211,7 @@ class TriangularLinearOperator(LinearOperator, _TriangularLinearOperatorBase):
         right_tensor: Union[Float[Tensor, "... N P"], Float[Tensor, " N"]],
         left_tensor: Optional[Float[Tensor, "... O N"]] = None,
     ) -> Union[Float[Tensor, "... N P"], Float[Tensor, "... N"], Float[Tensor, "... O P"], Float[Tensor, "... O"]]:
+        _matmul_broadcast_shape(self.shape, right_tensor.shape)  # (the solves below would broadcast silently)
         squeeze = False
         if right_tensor.dim() == 1:
             right_tensor = right_tensor.unsqueeze(-1)
